@@ -32,6 +32,7 @@ func init() {
 	gens["Src_ipextract.v"] = genGoLoopIP
 	gens["Src_csrfcmp.v"] = genGoLoopCSRFCompare
 	gens["Src_applymw.v"] = genGoLoopApplyMiddleware
+	gens["Src_ratestore.v"] = genGoLiteRateStore
 }
 
 // innerHandler finds the innermost function literal of shape func(c echo.Context) error inside fd.
@@ -331,6 +332,10 @@ func (g *goliteCfg) assignTo(lhs ast.Expr, rhs string) (string, error) {
 	case *ast.StarExpr:
 		return g.assignTo(v.X, rhs)
 	case *ast.IndexExpr:
+		if id, ok := v.X.(*ast.Ident); !(ok && g.locals[id.Name]) {
+			// m[k] = e on a map outside the function (the store's visitors): an observable store
+			return fmt.Sprintf("SEmit %s [%s]", g.str(lit(lhs)+" ="), rhs), nil
+		}
 		// xs[i] = e on a local slice: slices are values, the local gets the updated slice
 		if id, ok := v.X.(*ast.Ident); ok && g.loop && g.locals[id.Name] {
 			ix, err := g.expr(v.Index)
@@ -355,7 +360,20 @@ func (g *goliteCfg) block(stmts []ast.Stmt) (string, error) {
 	return "[" + strings.Join(out, ";\n    ") + "]", nil
 }
 
+// stmt translates one statement; external calls met inside its expressions (hoisted into g.pre) are emitted in front of it,
+// in evaluation order - none is ever dropped.
 func (g *goliteCfg) stmt(s ast.Stmt) ([]string, error) {
+	saved := g.pre
+	g.pre = nil
+	out, err := g.stmtInner(s)
+	if len(g.pre) > 0 {
+		out = append(append([]string(nil), g.pre...), out...)
+	}
+	g.pre = saved
+	return out, err
+}
+
+func (g *goliteCfg) stmtInner(s ast.Stmt) ([]string, error) {
 	switch v := s.(type) {
 	case *ast.EmptyStmt:
 		return nil, nil
@@ -1307,4 +1325,23 @@ func genGoLoopApplyMiddleware(repo string) (string, error) {
 		return "", err
 	}
 	return goloopHeader + "(* echo.go: applyMiddleware - the loop that wraps a handler in a list of middleware (used for a route's chain, for Echo.Use\n   and for Echo.Pre).  Applying a middleware to a handler is pure: it yields the wrapped handler. *)\n" + s, nil
+}
+
+func genGoLiteRateStore(repo string) (string, error) {
+	f, err := parseFile(repo, "middleware/rate_limiter.go")
+	if err != nil {
+		return "", err
+	}
+	fd := findFunc(f, "*RateLimiterMemoryStore", "Allow")
+	if fd == nil {
+		return "", fmt.Errorf("RateLimiterMemoryStore.Allow not found")
+	}
+	s, err := goliteFunc(fd, "store_allow", goliteCfg{
+		ignore: map[string]bool{"store.mutex.Lock": true, "store.mutex.Unlock": true},
+		extern: map[string]bool{"store.timeNow": true, "limiter.AllowN": true},
+		cells:  map[string]bool{"now.Sub(store.lastCleanup)": true}})
+	if err != nil {
+		return "", err
+	}
+	return goliteHeader + "(* middleware/rate_limiter.go: RateLimiterMemoryStore.Allow.  The map lookup, the clock and the visitor's token bucket are external\n   (input stream); the store into the map and the sweep are events; limiter.lastSeen is a cell. *)\n" + s, nil
 }
